@@ -242,7 +242,7 @@ class Prop:
     shard = 250
     rule = ("plain trees: every ordered forest with <= 3 nodes x every labeling over 2 strings x data_id in {default, 0, '', 'k', "
             "hash(data)} that the tree accepts (quick: 3-node forests with {default, 0} only); every forest with <= N nodes (N=5 "
-            "quick, 6 thorough) x 6 labeling patterns (distinct strings; clones in different parents; explicit/falsy/default-valued ids; "
+            "quick, 6 thorough) x 7 labeling patterns (distinct strings; strings JSON must escape; clones in different parents; explicit/falsy/default-valued ids; "
             "value-equal objects, tuples, ints, dataclasses; identity-hashed objects; '7' next to 7) x the 5 serialisation mappers (none / "
             "set data in place / wrap / new dict keeping or dropping data_id) with the inverse deserialisation mapper (at N nodes: 1 (quick) or 2 "
             "of the 5 mappers per tree); trees under a calc_data_id hook; typed trees; emptied trees (clear, remove of the last top "
@@ -250,7 +250,7 @@ class Prop:
             "into every node of every forest <= 3 (thorough 4) nodes x 3 calc_data_id hooks x 6 item lists.  Every dump goes through "
             "json.dumps/json.loads before from_dict.  A case is one tree (or one dict list); distinct = distinct desc; non-trivial = >= 3 nodes")
     exhaustive_note = ("all shapes <= 3 nodes x all labelings (2 strings x 5 data_id choices; quick: 2 choices at 3 nodes); "
-                       "all shapes <= N nodes x 6 patterns x mappers (N=5 quick, 6 thorough)")
+                       "all shapes <= N nodes x 7 patterns x mappers (N=5 quick, 6 thorough)")
     assumptions = [
         "serialisation mappers are functions of the node's data object/ids and the dict passed in; deserialisation mappers read only item['data'] and do not mutate the item",
         "the mapper pair is inverse: deser(ser(x)) == x (hence equal hash) – hypothesis of the round-trip theorem, not an axiom",
@@ -405,6 +405,9 @@ class Prop:
             (["e:1", "e:1", "t:1,2", "i:7", "d:3", "e:2", "t:", "i:0"], lambda i, d, s: ((d * 3 + s) % 8, None, None if s < 8 else f"x{i}")),
             # identity-hashed objects (clones only through the same object) with explicit ids on some
             (["p:1", "p:1", "w:4", "p:2"], lambda i, d, s: ((d + s) % 4, None, None if i % 3 else (0 if i == 0 else f"q{i}"))),
+            # strings JSON has to escape (quote, backslash, control, non-ASCII, non-BMP), also as explicit ids
+            (["s:a\"b", "s:a\\b", "s:\n\t", "s:\u00e9\u00df", "s:\U0001F600x", "s: "],
+             lambda i, d, s: ((d + 2 * s + i) % 6, None, None if (i + s) % 3 else ["\"", "\\", "\u00e9", "\U0001F600", "\n"][i % 5] + str(i))),
             # strings and non-strings mixed, same printed form ("7" and 7)
             (["s:7", "i:7", "s:a", "e:7"], lambda i, d, s: ((d + 2 * s) % 4, None, None if s < 2 else f"x{i}")),
         ]
